@@ -24,7 +24,7 @@ var (
 	Codes      = []string{"", "c1", "C2"}
 	Zones      = []string{"", "z1", "z2"}
 	ServiceIDs = []string{"", "10", "9", "WK", "sa", "su", "WK "} // "WK " is only ever referenced, never a calendar id (it is out of order)
-	ShapeIDs   = []string{"", "10", "9", "Sh", "sh2", "Sh "} // "Sh " is only ever referenced, never a shapes.txt id
+	ShapeIDs   = []string{"", "10", "9", "Sh", "sh2", "Sh "}      // "Sh " is only ever referenced, never a shapes.txt id
 	TripIDs    = []string{"", "T1", "t2", "t3", "10", "9", "T1 "}
 	BlockIDs   = []string{"", "b1", "B2"}
 	Bads       = []string{"", "abc", "12:xx:00", "2024-01-01", "1.5x", "--", "12a", "08:10:00:00", "1:2:3:4:5", ":::", "99999999999999999999",
@@ -44,6 +44,9 @@ var Decs = []Dec{{"", 0}, {"0", 0}, {"-73.99", -73.99}, {"40.75", 40.75}, {"100.
 // Dates in increasing order (token order = date order).
 // 20240310 / 20241103: US DST starts / ends; 20240407 / 20240929: New Zealand DST ends / starts.
 var Dates = []string{"", "20240101", "20240115", "20240310", "20240311", "20240407", "20240630", "20240929", "20241103", "20250101", "20251231"}
+
+// ZeroDate is the token of 00010101 (before every pool date): in UTC its midnight is Go's zero time.Time.
+const ZeroDate = -3
 
 func init() {
 	// (the last token of these two pools is a reference-only id, see above)
